@@ -64,6 +64,23 @@ def run(ctx):
     sim_family(ctx, 'Simulation', fam, 'C01.simulation_vs_refsem',
                'pyrtl.Simulation disagrees with the documented cycle semantics',
                'pyrtl.simulation.Simulation.step', reps=3 if ctx.tier == 'quick' else 10)
+    # a cycle on which an rtl assertion fires is still a complete cycle (registers latch): keep stepping after it
+    from fam import obscheck
+    from vlib.guard import guarded
+    n_as = 0
+    for k in (0, 1, 3, 6):
+        n_as += 1
+        r = guarded(lambda: obscheck.assertions(simname='Simulation', fail_at=k))
+        if r.get('crashed'):
+            ctx.crashes.append('C01.assertion_cycle: ' + r['observed'][-300:])
+        elif r['failed']:
+            ctx.confirm_and_report('C01.assertion_cycle[fail_at=%d]' % k, 'call',
+                                   dict(module='fam.obscheck', func='assertions', kwargs=dict(simname='Simulation', fail_at=k)),
+                                   canonical_input=dict(fail_at=k), function='pyrtl.simulation.Simulation.step',
+                                   text='the cycle on which an rtl assertion fires is not a complete cycle')
+    ctx.family('C01.assertion_cycle', 'B', instances=n_as, evaluations=n_as, nontrivial=n_as,
+               bound='a counter with an assertion failing at cycle 0, 1, 3, 6: exception class and cycle, trace and '
+                     'inspect of the failing cycle, state after continuing to step', sample=dict(fail_at=3))
     ctx.assume('Python int = mathematical integer; bit-operation rewrites of DESIGN 3.2 '
                '(lean/PyInt.lean); generator expressions evaluated eagerly')
     ctx.assume('WireVector.bitmask cache invariant: a cached _bitmask equals 2**bitwidth-1 '
